@@ -267,8 +267,8 @@ def can_drop_privileges():
 def run_bin(binpath, args, stdin=None, timeout=600, env=None, cwd=None, taskset=None, user=None, nofile=None):
     """nofile: RLIMIT_NOFILE (soft = hard) for the child, as a container or a service unit would set it."""
     cmd = [binpath] + list(args)
-    if nofile:
-        cmd = ["prlimit", "--nofile=%d:%d" % (nofile, nofile)] + cmd
+    if nofile and shutil.which("prlimit"):
+        cmd = ["prlimit", "--nofile=%d:%d" % (nofile, nofile)] + cmd      # without util-linux the limit is simply not applied
     if taskset:
         cmd = ["taskset", "-c", taskset] + cmd
     e = dict(GOENV)
